@@ -93,6 +93,16 @@ def faults(case):
     yield "res_00", "first", 0, rebuild(case, res_line="  Resolution = 00"), None
 
 
+def written_event_ticks(truth) -> list:
+    out = [t for t, _, _ in truth.get("timesigs", [])] + [t for t, _, _ in truth.get("globals", [])]
+    for tr in truth.get("tracks", {}).values():
+        for g in tr["groups"]:
+            ln = g["open"] if g.get("open") is not None else max(g["lanes"].values(), default=0)
+            out += [g["tick"], g["tick"] + ln]
+        out += [t for t, _ in tr.get("phrases", [])] + [t for t, _ in tr.get("tevents", [])]
+    return out
+
+
 def all_event_ticks(chart):
     out = []
     st, ge = chart.sync_track, chart.global_events_track
@@ -126,6 +136,13 @@ def judge_fault(rec, op, poslab, k, text, zero_tick, truth):
             return
         # zero tempo: a chart may come back only if nothing is governed by it
         governed = [t for t in all_event_ticks(out.chart) if t >= zero_tick]
+        written = written_event_ticks(truth)
+        lost = sorted(t for t in written if t >= zero_tick)
+        if lost and not governed:
+            rec.violation("zero-tempo-events-dropped", f"'B 0' at tick {zero_tick}: the text places events at ticks {lost[:5]} under the zero tempo; "
+                          "the chart was returned without them instead of being rejected with ValueError", case,
+                          "zero-tempo-governed-events-silently-dropped")
+            return
         be = out.chart.sync_track.bpm_events
         later_tempo = [e.tick for e in be if e.tick > zero_tick]
         if governed or later_tempo:
@@ -286,6 +303,16 @@ def run_shard(shard, rec, tier, seed):
         del base
         lines = sync_lines(case["truth"]) + [f"  {far} = B 0"]
         judge_fault(rec, "zero_B", "last", len(T), rebuild(case, lines), far, case["truth"])
+        # trailing zero tempo placed so that ONLY notes (no other event kind) lie under it
+        note_ticks = sorted(g["tick"] for tr in case["truth"]["tracks"].values() for g in tr["groups"])
+        others = [t for t in written_event_ticks({"timesigs": case["truth"]["timesigs"], "globals": case["truth"]["globals"],
+                                                  "tracks": {k: {"groups": [], "phrases": v.get("phrases", []), "tevents": v.get("tevents", [])}
+                                                             for k, v in case["truth"]["tracks"].items()}})]
+        cut = max(others + [t for t, _ in T], default=0) + 1
+        if note_ticks and note_ticks[-1] >= cut:
+            lines = sync_lines(case["truth"]) + [f"  {cut} = B 0"]
+            judge_fault(rec, "zero_B", "last", len(T), rebuild(case, lines), cut, case["truth"])
+            rec.cls("zero_last:only_notes_governed")
         if i < 1:
             rec.sample({"tempo_events": len(T), "operators": OPS, "sync_head": sync_lines(case["truth"])[:6]})
         if rec.full:
